@@ -247,6 +247,34 @@ def bigfirst_case(rng, cid, prec):
                 dumplu=1, timeout=60, kind="bigfirst", trace=2)
 
 
+def tinycol_case(rng, cid, prec):
+    """what counts as singular: an EXACTLY zero pivot column, nothing else.  Lower bidiagonal matrix in natural order; an early
+    column holds only subnormal, non-zero values whose reciprocal is still finite (the factorization of that column is clean), a
+    later column is exactly zero (stored zeros or structurally empty): info must name the later one.  Real precisions."""
+    rnd = c01.f32 if prec == "s" else (lambda v: v)
+    n = rng.randint(7, 14); t = rng.randint(1, n - 4); z = rng.randint(t + 2, n - 1)
+    dg, sb = (6e-39, 1e-39) if prec == "s" else (1.5e-308, 2e-309)
+    ent = {}
+    for j in range(n):
+        ent[(j, j)] = gen.val(rng) * 8
+        if j + 1 < n:
+            ent[(j + 1, j)] = gen.val(rng) * 0.25
+    ent[(t, t)] = dg * rng.choice([1, -1]); ent[(t + 1, t)] = sb
+    empty = rng.random() < 0.5
+    for key in list(ent):
+        if key[1] == z:
+            if empty: del ent[key]
+            else: ent[key] = 0.0
+    A = gen.from_entries(n, ent, "singular-tinycol")
+    vals = [rnd(v) for v in A["vals"]]
+    nrhs = rng.choice([1, 2])
+    rhs = [rnd(gen.val(rng)) for _ in range(n * nrhs)]
+    return dict(id=cid, prec=prec, driver=rng.choice(["gssv", "gssvx"]), stype="NC", m=n, n=n, colptr=A["colptr"], rowind=A["rowind"], vals=vals,
+                nrhs=nrhs, rhs=rhs, nprocs=rng.choice([1, 2, 4]), colperm=0,
+                ienv=[rng.choice([1, 2, 4]), rng.choice([1, 2, 4]), rng.choice([8, 200]), 200, 100, -50, -50, -30],
+                perturb=None, fact=0, trans=0, dumplu=1, timeout=60, kind="tinycol", trace=2, thresh=1.0)
+
+
 def expected_info(c, r):
     """exact oracle: elimination of A*Pc in the column order the driver used"""
     n = c["n"]; ncomp = 2 if c["prec"] in "cz" else 1
@@ -346,17 +374,17 @@ def run(ctx):
                        "1..8 x orderings 0..3, ASan build, seeded perturbation; non-trivial = n>=3; distinct by matrix+parameters")
     ctx.coq_properties()
     pdrv = ctx.ocaml_model("pivot")
-    subs = ["zerocol", "emptycol", "emptyrow", "zerorow", "structdef", "cancel", "relaxdef", "multizero", "bigfirst", "bigfirst",
+    subs = ["tinycol", "zerocol", "emptycol", "emptyrow", "zerorow", "structdef", "cancel", "relaxdef", "multizero", "bigfirst", "bigfirst",
             "snodezero", "snodezero", "thinsnode", "thinsnode"]
-    N = {"d": 56, "s": 14, "z": 14, "c": 14} if ctx.quick() else {"d": 700, "s": 200, "z": 200, "c": 200}
+    N = {"d": 60, "s": 30, "z": 15, "c": 15} if ctx.quick() else {"d": 700, "s": 200, "z": 200, "c": 200}
     nok = 0; ninfo = 0; nooo = 0
     for prec in "dszc":
         cases = []
         for k in range(N[prec]):
             sub = subs[k % len(subs)]
-            if prec in "cz" and sub == "cancel":
+            if prec in "cz" and sub in ("cancel", "tinycol"):
                 sub = "zerocol"
-            cases.append(bigfirst_case(rng, k + 1, prec) if sub == "bigfirst" else
+            cases.append(tinycol_case(rng, k + 1, prec) if sub == "tinycol" else bigfirst_case(rng, k + 1, prec) if sub == "bigfirst" else
                          snodezero_case(rng, k + 1, prec) if sub == "snodezero" else
                          thinsnode_case(rng, k + 1, prec) if sub == "thinsnode" else
                          singular_case(rng, k + 1, prec, rng.randint(2, 24 if ctx.quick() else 60), sub))
